@@ -717,3 +717,153 @@ Proof.
     destruct (reachable_from d (g_reg g) s) as [res b] eqn:E. simpl in *. subst b.
     apply mem_sym_In. apply (reachable_from_spec _ _ _ _ E). exact Hr.
 Qed.
+
+(* ---------- what the depth-limited deciders rely on (C03) ---------- *)
+Section DistFacts.
+Variables (d : decl) (order : list sym -> list sym) (g : grammar).
+Hypothesis Hxd : d_xdepth d = false.
+Hypothesis Hperm : perm_order order.
+Hypothesis Han : analyse d order = Ok g.
+
+Let r := g_reg g.
+Let m := g_dist g.
+
+Lemma df_inv : reg_inv d r.
+Proof. destruct (analyse_parts _ _ _ Han) as [Er _]. eapply reg_result_inv; exact Er. Qed.
+
+Lemma df_closed c : mem_sym (SC c) (r_nodes r) = true -> closed_at d r c.
+Proof. destruct (analyse_parts _ _ _ Han) as [Er _]. intro H. eapply reg_result_closed; eassumption. Qed.
+
+Lemma df_post : forall s, In s (order (r_nodes r)) -> exists v, dist_step d r m s = Ok v /\ mget m s <= v.
+Proof.
+  destruct (analyse_parts _ _ _ Han) as [_ [El _]].
+  apply (dist_pass_nochange _ _ _ _ _ (dist_loop_exit _ _ _ _ _ _ El)).
+Qed.
+
+Lemma df_base b : In (SB b) (order (r_nodes r)) \/ dget m (SB b) = Some 0.
+Proof.
+  destruct (analyse_parts _ _ _ Han) as [_ [El _]].
+  destruct (mem_sym (SB b) (r_nodes r)) eqn:Emem.
+  - left. apply Hperm. apply mem_sym_In. exact Emem.
+  - right. unfold m. rewrite (dist_loop_other _ _ _ _ _ _ (SB b) El).
+    + apply dist_init_base. intro X. apply mem_sym_In in X. fold r in X. congruence.
+    + intro X. apply (proj1 (Hperm _ _)) in X. apply mem_sym_In in X. fold r in X. congruence.
+Qed.
+
+Lemma df_witnessed : witnessed d r m.
+Proof.
+  destruct (analyse_parts _ _ _ Han) as [_ [El _]].
+  refine (witnessed_loop d r Hxd (fun c Hc => df_closed c Hc) _ _ _ _ _ _ El).
+  - intros s k Hs Hk. destruct (dist_init_entries r s k Hs) as [-> | [b [-> [-> _]]]]; [unfold INF in Hk; lia|].
+    exists (match b with BInt => VInt 0 | BFloat => VFloat FAny | BStr => VStr [] | BBool => VBool false end).
+    destruct b; cbn [ty_of]; (split; [constructor | simpl; lia]).
+  - intros s Hs. apply (proj1 (Hperm _ _)) in Hs. exact Hs.
+Qed.
+
+Lemma df_lower :
+  (forall t v, WT d r true t v -> forall n, dist_ty d m t = Ok n -> n <= vdepth v) /\
+  (forall ts vs, WTs d r true ts vs -> forall ns, dist_tys d m ts = Ok ns -> Forall2 (fun n v => n <= vdepth v) ns vs).
+Proof.
+  destruct (dist_lower_mut d r m (order (r_nodes r)) Hxd df_inv (fun s Hs => proj2 (Hperm _ _) Hs) df_post df_base) as [A [B _]].
+  split; assumption.
+Qed.
+
+(* every table entry is non-negative *)
+Lemma df_nonneg s n : dget m s = Some n -> 0 <= n.
+Proof.
+  intro H. destruct (Z_lt_le_dec n INF) as [L | L]; [|unfold INF in L; lia].
+  destruct (df_witnessed s n H L) as [v [_ Hv]]. pose proof (vdepth_nonneg v). lia.
+Qed.
+
+Lemma df_ty_nonneg : forall t n, dist_ty d m t = Ok n -> 0 <= n.
+Proof.
+  assert (X : xd d = 0) by (unfold xd; rewrite Hxd; reflexivity).
+  induction t as [b|c|t IH|ts IH|ts IH|t mh IH] using ty_ind'; intros n H.
+  - cbn [dist_ty] in H. destruct (dget m (SB b)) eqn:E; [|discriminate]. inversion H; subst. eapply df_nonneg; eauto.
+  - cbn [dist_ty] in H. destruct (dget m (SC c)) eqn:E; [|discriminate]. inversion H; subst. eapply df_nonneg; eauto.
+  - cbn [dist_ty] in H. destruct (dist_ty d m t) as [x|]; cbn [bind] in H; [|discriminate]. inversion H; subst.
+    specialize (IH x eq_refl). lia.
+  - rewrite dist_ty_tuple in H. destruct (dist_tys d m ts) as [ns|] eqn:E; cbn [bind] in H; [|discriminate].
+    destruct ns as [|y t]; [discriminate|]. inversion H; subst.
+    destruct ts as [|t0 ts0]; [cbn [dist_tys] in E; discriminate|].
+    cbn [dist_tys] in E. destruct (dist_ty d m t0) as [x|] eqn:E0; cbn [bind] in E; [|discriminate].
+    destruct (dist_tys d m ts0); cbn [bind] in E; [|discriminate]. inversion E; subst.
+    inversion IH; subst. specialize (H2 _ E0). destruct (zmax_l_ge y t) as [A _]. lia.
+  - rewrite dist_ty_union in H. destruct (dist_tys d m ts) as [ns|] eqn:E; cbn [bind] in H; [|discriminate].
+    destruct ns as [|y t]; [discriminate|]. inversion H; subst.
+    assert (G : forall ts ns, Forall (fun t => forall n, dist_ty d m t = Ok n -> 0 <= n) ts -> dist_tys d m ts = Ok ns -> forall k, In k ns -> 0 <= k).
+    { clear. induction ts as [|t0 ts0 IHt]; intros ns Hf E k Hk; cbn [dist_tys] in E.
+      - inversion E; subst. destruct Hk.
+      - destruct (dist_ty d m t0) as [x|] eqn:E0; cbn [bind] in E; [|discriminate].
+        destruct (dist_tys d m ts0) as [xs|] eqn:Es; cbn [bind] in E; [|discriminate]. inversion E; subst.
+        inversion Hf; subst. destruct Hk as [<- | Hk]; [eauto | eapply IHt; eauto]. }
+    destruct (zmin_l_attained y t) as [-> | Hin]; [pose proof (G _ _ IH E y (or_introl eq_refl)); lia|].
+    pose proof (G _ _ IH E _ (or_intror Hin)). lia.
+  - cbn [dist_ty] in H. eauto.
+Qed.
+
+(* a concrete production is at least one deeper than each of its fields *)
+Lemma df_concrete c n :
+  is_abstract d (SC c) = false -> mem_sym (SC c) (r_nodes r) = true -> dget m (SC c) = Some n -> n < INF ->
+  1 <= n /\ exists ns, dist_tys d m (fields_of d (SC c)) = Ok ns /\ forall k, In k ns -> 1 + k <= n.
+Proof.
+  intros Ha Hreg Hg Hn.
+  destruct (df_witnessed (SC c) n Hg Hn) as [v [Hv Hd]]. cbn [ty_of] in Hv.
+  inversion Hv as [| | | |c0 c' args Hpo Hargs| | | |]; subst.
+  assert (c' = c) by (inversion Hpo; subst; [reflexivity | congruence]). subst c'.
+  rewrite vdepth_node in Hd. pose proof (vdepth_max_nonneg args). split; [lia|].
+  (* the distances of the fields are defined *)
+  assert (Hin : In (SC c) (order (r_nodes r))) by (apply Hperm; apply mem_sym_In; exact Hreg).
+  destruct (df_post _ Hin) as [sv [Hs _]].
+  destruct (mem_sym (SC c) (r_nonterm r)) eqn:En.
+  - rewrite (dist_step_fields _ _ _ _ Ha En) in Hs.
+    destruct (dist_tys d m (fields_of d (SC c))) as [ns|] eqn:Ens; cbn [bind] in Hs; [|discriminate].
+    exists ns. split; [reflexivity|]. intros k Hk.
+    pose proof (proj2 df_lower _ _ Hargs ns Ens) as F2.
+    assert (forall k, In k ns -> k <= vdepth_max args).
+    { clear - F2. induction F2 as [|x y l1 l2 Hxy _ IH]; cbn [vdepth_max]; intros k Hk; [destruct Hk|].
+      destruct Hk as [<- | Hk]; [lia | specialize (IH k Hk); lia]. }
+    specialize (H0 k Hk). lia.
+  - destruct (df_closed c Hreg) as [_ B].
+    destruct (fields_of d (SC c)) as [|f fs] eqn:Ef.
+    + exists []. split; [reflexivity | intros k []].
+    + specialize (B Ha ltac:(discriminate)). congruence.
+Qed.
+
+(* an abstract type at finite distance has a production that is not deeper *)
+Lemma df_abstract a l n :
+  is_abstract d (SC a) = true -> get_alts (r_alts r) a = Some l -> dget m (SC a) = Some n -> n < INF ->
+  exists c k, In c l /\ dget m (SC c) = Some k /\ k <= n.
+Proof.
+  intros Ha Hg Hd Hn.
+  destruct (df_witnessed (SC a) n Hd Hn) as [v [Hv Hdv]]. cbn [ty_of] in Hv.
+  inversion Hv as [| | | |c0 c' args Hpo Hargs| | | |]; subst.
+  inversion Hpo as [c1 Hc1 _ | a1 l1 c c'' Ha1 Hg1 Hin Hpo']; subst; [congruence|].
+  assert (l1 = l) by congruence. subst l1.
+  assert (Wc : WT d r true (TSym c) (VNode c' args)) by (constructor; assumption).
+  (* c is registered, so it has an entry *)
+  destruct (ri_mem _ _ df_inv _ _ _ Hg Hin) as [Hreg _].
+  assert (Hino : In (SC c) (order (r_nodes r))) by (apply Hperm; apply mem_sym_In; exact Hreg).
+  destruct (dget m (SC c)) as [k|] eqn:Ek.
+  - exists c, k. split; [exact Hin|]. split; [exact Ek|].
+    pose proof (proj1 df_lower _ _ Wc k) as L. cbn [dist_ty] in L. fold m in L. rewrite Ek in L. specialize (L eq_refl). lia.
+  - (* impossible: every registered symbol has an entry *)
+    exfalso. destruct (analyse_parts _ _ _ Han) as [_ [El _]].
+    assert (G : forall fuel m0 m1, dist_loop fuel d r (order (r_nodes r)) m0 = Ok m1 -> forall s, dget m0 s <> None -> dget m1 s <> None).
+    { clear. induction fuel as [|f IH]; intros m0 m1 H s Hs; simpl in H; [discriminate|].
+      destruct (dist_pass d r (order (r_nodes r)) m0 false) as [[m' ch]|] eqn:Ep; cbn [bind] in H; [|discriminate].
+      assert (P : forall ord ma mb c0 c1, dist_pass d r ord ma c0 = Ok (mb, c1) -> dget ma s <> None -> dget mb s <> None).
+      { clear. induction ord as [|a t IHo]; intros ma mb c0 c1 H Hs; simpl in H; [inversion H; subst; exact Hs|].
+        destruct (dist_step d r ma a) as [z|]; cbn [bind] in H; [|discriminate].
+        destruct (z <? _); [|eauto]. eapply IHo; [exact H|]. rewrite dget_dset. destruct (sym_eqb s a); [discriminate | exact Hs]. }
+      destruct ch; [eapply IH; [exact H | eapply P; eauto] | inversion H; subst; eapply P; eauto]. }
+    apply (G _ _ _ El (SC c)); [|exact Ek].
+    unfold dist_init. clear - Hreg. apply mem_sym_In in Hreg. fold r in Hreg.
+    assert (X : forall nodes m0, In (SC c) nodes -> dget (fold_left (fun m s => dset m s INF) nodes m0) (SC c) <> None).
+    { induction nodes as [|a t IH]; intros m0 Hin; [destruct Hin|]. simpl. destruct Hin as [-> | Hin]; [|apply IH; exact Hin].
+      assert (Y : forall nodes m1, dget m1 (SC c) <> None -> dget (fold_left (fun m s => dset m s INF) nodes m1) (SC c) <> None).
+      { clear. induction nodes as [|a t IH]; intros m1 H; simpl; [exact H|]. apply IH. rewrite dget_dset. destruct (sym_eqb (SC c) a); [discriminate | exact H]. }
+      apply Y. rewrite dget_dset, sym_eqb_refl. discriminate. }
+    apply X. exact Hreg.
+Qed.
+End DistFacts.
